@@ -11,6 +11,9 @@ LOCKNAME = {"threadpool": "pool", "resultq": "rq", "thread": "thr"}
 SYNC_FIELDS = {"m", "c", "t", "thread"}      # mutex, condvar, pthread_t: handed to pthread functions, not data
 
 
+STRICT = True
+
+
 class ExtractError(Exception):
     pass
 
@@ -41,8 +44,11 @@ def functions(src):
 def var_types(params, body):
     t = {}
     for m in re.finditer(r"struct\s+(\w+)\s*\*\s*(\*?)\s*(\w+)", params + ";" + body):
-        if m.group(1) in STRUCTS and not m.group(2):
-            t[m.group(3)] = m.group(1)
+        if m.group(1) in STRUCTS:
+            if not m.group(2):
+                t[m.group(3)] = m.group(1)
+            else:
+                t[m.group(3) + "__deref"] = m.group(1)      # struct X **p : (*p) is written p__deref by the caller
     return t
 
 
@@ -57,8 +63,25 @@ def type_of(expr, vt):
     return ty
 
 
+def configure(structs, field_types, lockname=None, sync_fields=None):
+    global STRUCTS, FIELD_TYPES, LOCKNAME, SYNC_FIELDS
+    STRUCTS, FIELD_TYPES = set(structs), dict(field_types)
+    if lockname is not None:
+        LOCKNAME = dict(lockname)
+    if sync_fields is not None:
+        SYNC_FIELDS = set(sync_fields)
+
+
+THREADPOOL_CFG = (set(STRUCTS), dict(FIELD_TYPES), dict(LOCKNAME), set(SYNC_FIELDS))
+READER_CFG = ({"mtbl_reader", "reader_iter", "block", "block_iter"},
+              {("reader_iter", "r"): "mtbl_reader", ("reader_iter", "b"): "block", ("reader_iter", "bi"): "block_iter",
+               ("reader_iter", "index_iter"): "block_iter", ("mtbl_reader", "index"): "block", ("block_iter", "block"): "block"},
+              {}, set())
+
+
 def extract(src):
     src = strip_comments(src)
+    src = re.sub(r"\(\s*\*\s*(\w+)\s*\)", r"\1__deref", src)
     sites = []
     for name, params, body in functions(src):
         vt = var_types(params, body)
@@ -114,7 +137,9 @@ def member_accesses(chain, vt, fn):
     ty = vt.get(parts[0])
     for f in parts[1:]:
         if ty is None:
-            raise ExtractError("%s: cannot type %r" % (fn, chain))
+            if STRICT:
+                raise ExtractError("%s: cannot type %r" % (fn, chain))
+            return out
         out.append((ty, f, False))
         ty = FIELD_TYPES.get((ty, f))
     return out
@@ -128,7 +153,7 @@ def statement_accesses(st, vt, fn):
         if base not in vt:
             continue
         acc = member_accesses(chain, vt, fn)
-        rest = st[m.end():].lstrip()
+        rest = re.sub(r"^(\s*\.\w+|\s*\[[^\]]*\])*", "", st[m.end():]).lstrip()     # x->f.g = …, x->f[i] = … write (into) f
         before = st[:m.start()].rstrip()
         is_write = bool(re.match(r"(=(?!=)|\+\+|--|\+=|-=|\*=)", rest)) or before.endswith("++") or before.endswith("--")
         rmw = bool(re.match(r"(\+\+|--|\+=|-=|\*=)", rest))
@@ -153,9 +178,10 @@ def statement_accesses(st, vt, fn):
     return out
 
 
-def lean_text(sites):
-    L = ["/- GENERATED by translators/gen.py from mtbl/threadpool.c — do not edit.",
-         "   Every access to a field of struct thread / resultq / threadpool / result_handler, with the mutexes held. -/",
+def lean_text(sites, reader_sites=()):
+    L = ["/- GENERATED by translators/gen.py from mtbl/threadpool.c, mtbl/reader.c, mtbl/block.c — do not edit.",
+         "   accessSites: every access to a field of struct thread / resultq / threadpool / result_handler, with the mutexes held.",
+         "   readerWrites: every WRITE to a field of struct mtbl_reader / reader_iter / block / block_iter in reader.c and block.c. -/",
          "namespace Mtbl.Generated", "",
          "structure Site where", "  fn : String", "  obj : String", "  field : String", "  write : Bool", "  locks : List String",
          "deriving DecidableEq, Repr", "",
@@ -164,8 +190,26 @@ def lean_text(sites):
     for fn, obj, field, w, locks in sites:
         rows.append('  ⟨"%s", "%s", "%s", %s, [%s]⟩' % (fn, obj, field, "true" if w else "false", ", ".join('"%s"' % l for l in locks)))
     L.append(",\n".join(rows))
+    L += ["]", "", "def readerWrites : List Site := ["]
+    rows = []
+    for fn, obj, field, w, locks in reader_sites:
+        if w:
+            rows.append('  ⟨"%s", "%s", "%s", true, []⟩' % (fn, obj, field))
+    L.append(",\n".join(rows))
     L += ["]", "", "end Mtbl.Generated", ""]
     return "\n".join(L)
+
+
+def extract_reader(reader_src, block_src):
+    global STRICT
+    saved = (STRUCTS, FIELD_TYPES, LOCKNAME, SYNC_FIELDS)
+    configure(*READER_CFG)
+    STRICT = False
+    try:
+        return extract(reader_src) + extract(block_src)
+    finally:
+        STRICT = True
+        configure(*saved)
 
 
 if __name__ == "__main__":
@@ -174,3 +218,7 @@ if __name__ == "__main__":
     for x in s:
         print(x)
     print(len(s))
+    r = extract_reader(open("/repo/mtbl/reader.c").read(), open("/repo/mtbl/block.c").read())
+    for x in r:
+        if x[3]:
+            print(x)
